@@ -5698,7 +5698,8 @@ class Deallocate_Stmt(StmtBase):  # R635
         opts = None
         if i != -1:
             j = line[:i].rfind(",")
-            assert j != -1, repr((i, j, line))
+            if j == -1:
+                return None
             opts = Dealloc_Opt_List(repmap(line[j + 1 :].lstrip()))
             line = line[:j].rstrip()
         return Allocate_Object_List(repmap(line)), opts
